@@ -67,6 +67,17 @@ fn create_symlink(sri: Integrity, cache: &PathBuf, target: &PathBuf) -> Result<I
         // destination, that is ok -- all the cache should care about is that
         // there is **some** valid file associated with the computed integrity.
         if !cpath.exists() {
+            // What is there may be the dangling link of an earlier target
+            // that has since been removed. Replace it.
+            let dangling = std::fs::symlink_metadata(&cpath)
+                .map(|meta| meta.file_type().is_symlink())
+                .unwrap_or(false);
+            if dangling
+                && std::fs::remove_file(&cpath).is_ok()
+                && symlink_file(target, &cpath).is_ok()
+            {
+                return Ok(sri);
+            }
             return Err(e).with_context(|| {
                 format!(
                     "Failed to create cache symlink for {} at {}",
